@@ -277,7 +277,7 @@ def check_C19(tier, t0):
 
     seed = core.verif_seed()
     n = scale(2000 if tier == "quick" else 30000)  # per hash seed
-    bud = budget(200 if tier == "quick" else 2400)
+    bud = budget(200 if tier == "quick" else 1700)
     partial = os.environ.get("CVSSSIM_C19_PARTIAL")
     if partial:
         # child mode: one hash seed (the one this interpreter was started with)
